@@ -7,13 +7,31 @@ from cisco_acl import Ace, AceGroup, Acl, Remark
 from .aclobs import leaves
 
 
+def group_members(acl: Acl, name: str):
+    """Member lines of address group `name` as attached to the ACL's entries (one definition per
+    group name, as in a device configuration)."""
+    for leaf in leaves(acl):
+        if isinstance(leaf, Ace):
+            for addr in (leaf.srcaddr, leaf.dstaddr):
+                if addr.type == "addrgroup" and addr.addrgroup == name and addr.items:
+                    return [i.line for i in addr.items]
+    return []
+
+
 def new_item(acl: Acl, line: str):
-    """Build an item the way a caller would, on the ACL's platform and switches."""
+    """Build an item the way a caller would, on the ACL's platform and switches; an entry that
+    references an address group gets the members that group has elsewhere in the ACL."""
     toks = line.split()
     if "remark" in toks[:2]:
         return Remark(line, platform=acl.platform, version=str(acl.version), type=acl.type)
-    return Ace(line, platform=acl.platform, version=str(acl.version), type=acl.type,
-               protocol_nr=acl.protocol_nr, port_nr=acl.port_nr, max_ncwb=acl.max_ncwb)
+    ace = Ace(line, platform=acl.platform, version=str(acl.version), type=acl.type,
+              protocol_nr=acl.protocol_nr, port_nr=acl.port_nr, max_ncwb=acl.max_ncwb)
+    for addr in (ace.srcaddr, ace.dstaddr):
+        if addr.type == "addrgroup":
+            lines = group_members(acl, addr.addrgroup)
+            if lines:
+                addr.items = lines
+    return ace
 
 
 def leaf_at(acl: Acl, i: int, j: int):
@@ -177,11 +195,12 @@ def perform(acl: Acl, op: dict):
             leaf.text = op["s"]
         return None
     if k == "set_members":
-        leaf = leaf_at(acl, op["i"], op["j"])
-        if isinstance(leaf, Ace):
-            addr = leaf.srcaddr if op["side"] == "src" else leaf.dstaddr
-            if addr.type == "addrgroup":
-                addr.items = list(op["lines"])
+        # one definition per group name: every reference gets the new member list
+        for leaf in leaves(acl):
+            if isinstance(leaf, Ace):
+                for addr in (leaf.srcaddr, leaf.dstaddr):
+                    if addr.type == "addrgroup" and addr.addrgroup == op["name"]:
+                        addr.items = list(op["lines"])
         return None
     raise KeyError(k)
 
